@@ -111,7 +111,7 @@ def sign (d : Nat) (pk : Point) (id msg : List UInt8) (cands : List (List UInt8)
   | .err e => .err e
   | .panic => .panic
 
-/-- `verify_raw(digest, pk, sig)` (after the fix: length check first) -/
+/-- `verify_raw(digest, pk, sig)` (after the fixes: length check first; the sum at infinity is rejected) -/
 def verify_raw (digest : List UInt8) (pk : Point) (sig : List UInt8) : Outcome Unit :=
   if digest.length ≠ 32 then .err "InvalidDigestLen"
   else if sig.length ≠ 64 then .err "InvalidDigest"
@@ -124,7 +124,11 @@ def verify_raw (digest : List UInt8) (pk : Point) (sig : List UInt8) : Outcome U
       let t := fn_add s r
       if t = 0 then .err "InvalidDigest"
       else
-        let p := ((g_mul s).point_add (pk.scalar_mul t)).to_affine_point
+        let sum := (g_mul s).point_add (pk.scalar_mul t)
+        -- `if sum.is_zero() { return Err(InvalidDigest) }` (B6: no x coordinate at infinity)
+        if sum.is_zero then .err "InvalidDigest"
+        else
+        let p := sum.to_affine_point
         let x1 := reduceN (fp_from_mont p.x)
         let e := reduceN (beNat digest)
         if r = fn_add x1 e then .ok () else .err "InvalidDigest"
